@@ -27,7 +27,8 @@
 //     descending (already sorted / reversed / already partitioned across
 //     block borders), all-true-except-the-first, all-false-except-the-last.
 // Each kernel additionally has a few variants (comparator, predicate,
-// operator, in-place); see the V_* tables.
+// operator, in-place); see the V_* tables.  Index order is input-major
+// (simplest input first), then variant, then T.
 //
 // Oracles demand only what the property / the header promise:
 //   sort        key sequence equals std::sort's, result is a permutation
@@ -59,20 +60,24 @@
 // violation `partition:<T>:predicate-called-outside-range` instead of an ASan
 // abort that would kill the worker and hide the other partition findings.
 // With a plain predicate thread 0 has partitioned all 4096 elements before the
-// second thread has even woken up, i.e. every run is effectively serial.  A
-// third predicate variant therefore makes each thread wait (bounded, 300 us)
-// at its FIRST predicate call until the other threads that can own blocks
-// have made theirs: every thread then holds its first low/high block pair at
-// the same time, which is the situation the leftover logic exists for.  The
-// predicate's value is unchanged; nothing else about the schedule is steered.
-// A fourth variant passes a hand-written random-access iterator whose default
-// constructor does the same bounded wait: partition's per-thread functor
-// default-constructs its block cursors first thing, so all threads reach
-// takeLow()/takeHigh() together and the claims interleave (low, low, high,
-// high instead of low, high, low, high).
-// Because partition's interesting behaviour needs >= 4 blocks and its runs are
-// cheap, partition also gets all 4-block combinations of size 4096 in the
-// quick tier.
+// second thread has even woken up, i.e. nearly every run is effectively serial.
+// Two partition variants therefore add a bounded wait (at most 300 us) that
+// does not change any value the algorithm sees:
+//   * "rendezvous at the first predicate call": each thread waits at its
+//     FIRST predicate call until the other threads that can own blocks have
+//     made theirs, so every thread holds its first low/high block pair at the
+//     same time - the situation the left-over logic exists for;
+//   * "iterator type with a rendezvous": a hand-written random-access iterator
+//     whose default constructor does the same wait.  partition's per-thread
+//     functor default-constructs its block cursors first thing, so all threads
+//     reach takeLow()/takeHigh() together and the claims interleave (low, low,
+//     high, high instead of low, high, low, high).
+// Nothing else about the schedule is steered.  Because partition's
+// interesting behaviour needs >= 4 blocks and its runs are cheap, partition
+// also gets all 4-block combinations of size 4096 in the quick tier.
+//
+// Quick runs a prefix of each kernel's variant table (struct Kernel), thorough
+// all of it.
 //
 // All kernels share one galois::SharedMemSys per worker process (per-thread
 // storage is recycled across thousands of calls, as in an application).
@@ -799,6 +804,7 @@ struct Kernel {
   bool blocks4_in_quick;         // quick also gets all 4-block combinations
   const char* const* varnames;
   void (*body)(const Input&, unsigned, int);
+  int weight; // share of the time budget (--deadline)
   int nvar(bool th) const { return th ? nvar_thorough : nvar_quick; }
   const std::vector<Input>& table(bool th) const {
     return inputs(th ? 2 : blocks4_in_quick ? 1 : 0);
@@ -808,14 +814,15 @@ struct Kernel {
 // far more on a busy machine) dominates the run time: quick gives find_if 2 of
 // its 5 predicates and sort 2 of its 3 variants (the third, sort(first,last),
 // only forwards std::less to the same code).
+// (cheap kernels first: the driver hands unused time budget to later cases)
 static const Kernel KERNELS[] = {
-    {"sort", 2, 3, false, V_SORT, body_sort},
-    {"partition", 3, 4, true, V_PART, body_partition},
-    {"count_if", 2, 2, false, V_PRED, body_count_if},
-    {"find_if", 2, 5, false, V_FIND, body_find_if},
-    {"accumulate", 3, 3, false, V_ACC, body_accumulate},
-    {"map_reduce", 3, 3, false, V_MR, body_map_reduce},
-    {"partial_sum", 2, 2, false, V_PS, body_partial_sum},
+    {"count_if", 2, 2, false, V_PRED, body_count_if, 2},
+    {"accumulate", 3, 3, false, V_ACC, body_accumulate, 3},
+    {"map_reduce", 3, 3, false, V_MR, body_map_reduce, 3},
+    {"partial_sum", 2, 2, false, V_PS, body_partial_sum, 2},
+    {"partition", 3, 4, true, V_PART, body_partition, 4},
+    {"sort", 2, 3, false, V_SORT, body_sort, 10},
+    {"find_if", 2, 5, false, V_FIND, body_find_if, 20},
 };
 
 // idx = (input * nvar + variant) * MAXT + (T-1): inputs simplest first, and
@@ -914,7 +921,7 @@ int main(int argc, char** argv) {
           throw;
       }
     };
-    c.weight = k.nvar_thorough;
+    c.weight = k.weight;
     en.push_back(c);
   }
   {
@@ -938,7 +945,7 @@ int main(int argc, char** argv) {
         throw;
       }
     };
-    en.push_back(c);
+    en.insert(en.begin(), c); // cheapest case first
   }
   return sx::sx_main(argc, argv, "C16", {}, en);
 }
